@@ -633,3 +633,68 @@ SPECS["C16"] = {
         "std::time::Instant::now() and tokio's clock agree (both follow the harness's virtual clock)",
     ],
 }
+
+
+def _client_only(pid, prop, checks_mod, nontrivial, extra_rule, level_text, level_note, sweeps=None):
+    part = client_part(prop, checks_mod, nontrivial, extra_rule)
+    if sweeps:
+        part["sweeps"] = sweeps
+        part["rule"] += "; thorough adds every sequence of 5 ops over {poll call 0/1, poll dispatch, " \
+                        "answer id 0 twice / id 1, abandon call 0, step the clock past the deadlines} after two calls, " \
+                        "for (buffer, limit) = (1,1) and (2,2)"
+    return {
+        "pid": pid,
+        "coq_targets": [f"Properties/{pid}.vo", f"Checks/{checks_mod}.vo"],
+        "parts": [part],
+        "trusted_base": COMMON_TB + CLIENT_TB,
+        "level_text": level_text,
+        "level_note": level_note,
+        "design_ref": f"DESIGN.md section 6 ({pid})",
+        "assumptions": ["one op is atomic (one poll, one drop step, one delivery)",
+                        "fewer than 2^64 operations (request ids do not wrap)"],
+    }
+
+
+_CLIENT_NOTE = ("Trusted: Coq kernel, vm_compute, harness, driver. Modelled not verified: tokio mpsc/oneshot, "
+                "tokio-util DelayQueue, futures Fuse as sequential data. Correspondence (explicit-poll mode) is sampled, "
+                "not proved. OS-thread interleavings below poll granularity are outside the model. ")
+
+SPECS["C01"] = _client_only(
+    "C01", "c01", "C01client", has("done:reply", "done:srverr"),
+    "a caller of the real client received a reply or a server error",
+    "Theorem C01_client_monitor: for EVERY transport, configuration and op list (< 2^64 ops) the client model's "
+    "trace is accepted by the C01 monitor - a caller gets a reply / server error only if a response with that body "
+    "for its own request id was read after its request was written, and no call completes twice (simulation "
+    "relation observer<->model, ids handed out in first-poll order are unique; ClientSimBase.v). Tied to the real "
+    "Channel/RequestDispatch by replaying generated scripts (concurrent calls over cloned handles, answers "
+    "reordered, duplicated, unknown, late) and comparing every observation inside Coq; the monitor also runs on "
+    "the real traces.",
+    _CLIENT_NOTE + "The clause 'responses whose id matches no outstanding call are discarded without disturbing any "
+    "other call' is covered by the frame lemma unknown_id_frame (state equality) and by the correspondence.",
+    sweeps=[["--len", "5"]])
+
+SPECS["C05"] = _client_only(
+    "C05", "c05", "C05client", has("done:deadline"),
+    "a caller of the real client received a deadline error",
+    "Theorem C05_client_monitor: for EVERY transport, configuration and op list the client model's trace is accepted "
+    "by the C05 monitor - a deadline error only for a transmitted request, never before the (absolute) deadline, and "
+    "not if a response for that id was read before the deadline; invariant: every timer fires at max(deadline, "
+    "transmission time) for deadlines within MAX_TIMEOUT (365 d, the clamp introduced by fix 44cf918). Tied to the "
+    "real client under virtual time (clock stepped to deadline-1, deadline, deadline+1; replies racing expiry; "
+    "queueing delay from a not-ready sink or a full in-flight table).",
+    _CLIENT_NOTE + "Promptness ('once its deadline passes, to timer granularity') is stated as the separate lemma "
+    "expiry_prompt about the model and checked on the code by correspondence; deadlines beyond 365 days fire at the "
+    "clamp and are exempted by the monitor.")
+
+SPECS["C18"] = _client_only(
+    "C18", "c18", "C18client", has("wire-cancel", "in-flight>=1"),
+    "the real dispatch wrote a request or a cancellation",
+    "Theorem C18_client_monitor: for EVERY transport, configuration and op list the client model writes every request "
+    "with its caller's trace id, sampling decision, deadline and body and its own span id, each id once, and every "
+    "cancellation with exactly the trace context of its request. Tied to the real client (no subscriber installed) by "
+    "correspondence with distinct trace ids on concurrent requests and cancellation at every point; random span ids "
+    "are compared only through equalities (a request's span id is named after its request id).",
+    _CLIENT_NOTE + "Partial: the server half (the handler observes the same trace id and sampling with a fresh span "
+    "id) and multi-hop chains are covered by the server model's Yield observations and by the chain driver, not by "
+    "this theorem; 'fresh' means drawn anew, distinctness of random 64-bit values is not claimed; runs with an "
+    "OpenTelemetry subscriber are not modelled.")
